@@ -82,3 +82,38 @@ pub fn run(args: &[i128]) -> Vec<i128> {
     rets.extend(obs);
     rets
 }
+
+// bulk insertion through the Context API. line: contextbig which n v0 (probe)*   which: 0 = base context, 1 = a new extra context
+// output: first add whose index differs from its position (-1 none), number of such adds, size of the filled context, size of
+// the other one (base when the extra one is filled: must stay 0; -1 when no extra context exists), then per probe: contains, id
+// [oracle: theorems ctx_bulk_base / ctx_bulk_extra, Context/Bulk.v]
+pub fn run_big(args: &[i128]) -> Vec<i128> {
+    let which = args[0]; let n = args[1] as usize; let v0 = args[2];
+    let mut c: Ctx = Context::with_capacity(1, "ctx", 2);
+    if which == 1 { c.extra_ctx_add_new(2, true); }
+    let (mut first, mut bad) = (-1i128, 0i128);
+    for i in 0..n {
+        let k: i128 = if which == 0 { c.add_node(node(v0 + i as i128)) as i128 }
+                      else { c.extra_ctx_add_node(node(v0 + i as i128)).map(|x| x as i128).unwrap_or(-2) };
+        if k != i as i128 { bad += 1; if first < 0 { first = i as i128; } }
+    }
+    let mut out = vec![first, bad];
+    if which == 0 {
+        out.push(c.size() as i128);
+        out.push(c.extra_ctx_size().map(|x| x as i128).unwrap_or(-1));
+    } else {
+        out.push(c.extra_ctx_size().map(|x| x as i128).unwrap_or(-1));
+        out.push(c.size() as i128);
+    }
+    for p in &args[3..] {
+        let p = *p as usize;
+        if which == 0 {
+            out.push(c.contains_node(p) as i128);
+            out.push(c.get_node(p).map(|x| x.id() as i128).unwrap_or(-1));
+        } else {
+            out.push(c.extra_ctx_contains_node(p) as i128);
+            out.push(c.extra_ctx_get_node(p).map(|x| x.id() as i128).unwrap_or(-1));
+        }
+    }
+    out
+}
